@@ -106,7 +106,7 @@ VT0 = 1_100_000_000  # virtual clock for harness edits: strictly increasing, far
 class Box:
     """A scratch repository: .git laid out by hand, loose objects written by the harness."""
 
-    def __init__(self):
+    def __init__(self, config_extra=b""):
         isolate()
         self.root = fresh_dir("c18")
         self.rootb = os.fsencode(self.root)
@@ -114,7 +114,7 @@ class Box:
         for d in ("objects/info", "objects/pack", "refs/heads", "refs/tags", "info"):
             os.makedirs(os.path.join(self.gitdir, d))
         with open(os.path.join(self.gitdir, "config"), "wb") as f:
-            f.write(CONFIG)
+            f.write(CONFIG + config_extra)
         self.set_head_branch("main")
         self.blobs = {}
         self.tick = 0
@@ -770,7 +770,14 @@ STARTS = {
 }
 RESTORE = ("co_paths", "reset_file", "restore")  # dulwich operations that are meant to rewrite one work-tree path
 GIT_OPS = ("git_reset", "git_write_tree")  # git_reset = read-tree HEAD + update-index --refresh
-TERMINAL = ("reset_hard", "switch_force", "reset_mixed", "reset_mixed_alt")  # judged, never extended: the model does not predict their result
+TERMINAL = ("reset_hard", "switch_force", "reset_mixed", "reset_mixed_alt", "switch_drop")  # judged, never extended: the model does not predict their result
+
+
+def drop_path(sid):
+    """The tracked file that branch C of a start lacks (first edit path that is a file of the start tree)."""
+    spec, paths, _ = STARTS[sid]
+    names = [n for n, _ in spec]
+    return ([p for p in paths if p in names] + sorted(names))[0]
 
 
 def alt_tree(sid):
@@ -808,7 +815,7 @@ def link_targets(p, paths):
     return t
 
 
-def menu(st, paths, alt=None):
+def menu(st, paths, alt=None, drop=None):
     ops = []
     for p in paths:
         e = wm.wd_lookup(st.wd, p)
@@ -849,14 +856,16 @@ def menu(st, paths, alt=None):
         if e != "dir" and parents_ok:
             parents_exist = all(wm.wd_lookup(st.wd, q) == "dir" for q in wm.prefixes(p))
             clash = any(q.startswith(pre) for q in st.index) or any(q in st.index for q in wm.prefixes(p))
-            if p in st.head and not clash:
+            cur = wm.entry_of(e) if isinstance(e, tuple) else None
+            if p in st.head and not clash and cur != st.head[p]:  # (only where there is something to restore)
                 ops.append(("co_paths", p))
-            if p in st.head and parents_exist:
+            if p in st.head and parents_exist and cur != st.head[p]:
                 ops.append(("reset_file", p))
-            if p in st.index and parents_exist:
+            if p in st.index and parents_exist and cur != st.index[p]:
                 ops.append(("restore", p))
     ops.append(("stage_all",))
-    ops.append(("reset_mixed",))
+    if st.index != st.head:
+        ops.append(("reset_mixed",))
     if alt is not None:
         # discard-everything operations, from states without file/directory clashes at any tracked path
         involved = set(st.head) | set(st.index) | set(alt)
@@ -866,7 +875,13 @@ def menu(st, paths, alt=None):
         if calm:
             ops.append(("reset_hard",))
             ops.append(("switch_force",))
-            ops.append(("reset_mixed_alt",))
+            if st.index != st.head:
+                ops.append(("reset_mixed_alt",))
+    if drop is not None and wm.wd_lookup(st.wd, drop) is None and all(wm.wd_lookup(st.wd, q) in (None, "dir") for q in wm.prefixes(drop)) and st.index == st.head and all(
+        q == drop or wm.entry_of(wm.wd_lookup(st.wd, q) if isinstance(wm.wd_lookup(st.wd, q), tuple) else None) == v for q, v in st.head.items()
+    ):
+        # the file was deleted by hand, nothing else differs: a plain (unforced) switch to the branch that lacks it
+        ops.append(("switch_drop",))
     return ops
 
 
@@ -995,6 +1010,9 @@ def real_apply(box, op):
     if k == "switch_force":
         porcelain.checkout(r, b"B", force=True)
         return
+    if k == "switch_drop":
+        porcelain.checkout(r, b"C")
+        return
     if k == "reset_mixed":
         porcelain.reset(r, "mixed", "HEAD")
         return
@@ -1064,7 +1082,7 @@ def op_str(op):
 
 
 OP_API = {"stage": "porcelain.add(path)", "stage_all": "porcelain.add(.)", "unstage": "WorkTree.unstage", "rmc": "porcelain.remove(cached)",
-          "reset_hard": "porcelain.reset(hard)", "switch_force": "porcelain.checkout(force)", "reset_mixed": "porcelain.reset(mixed)",
+          "reset_hard": "porcelain.reset(hard)", "switch_force": "porcelain.checkout(force)", "reset_mixed": "porcelain.reset(mixed)", "switch_drop": "porcelain.checkout(branch)",
           "reset_mixed_alt": "porcelain.reset(mixed,other)", "co_paths": "porcelain.checkout(paths)", "reset_file": "porcelain.reset_file",
           "restore": "porcelain.restore(worktree)"}
 
@@ -1101,6 +1119,8 @@ def run_edits(acc, sid, ops, use_git, judge_last=True, expect_key=None):
     try:
         tree, tid, cid = box.add_tree("A", spec)
         alt, _, alt_cid = box.add_tree("B", alt_tree(sid))
+        dropped = {q: v for q, v in tree.items() if q != drop_path(sid)}
+        _, _, drop_cid = box.add_tree("C", (dropped, {}))
         try:
             do_checkout(box, "porcelain.checkout", "A")
         except Exception as e:
@@ -1144,6 +1164,9 @@ def run_edits(acc, sid, ops, use_git, judge_last=True, expect_key=None):
                 acc.count("transitions")
                 acc.outcome("op:%s" % k)
                 to_alt = k in ("switch_force", "reset_mixed_alt")
+                if k == "switch_drop":
+                    judge_discard(acc, box, st, dropped, k, drop_cid, wd, desc, rpl, use_git)
+                    return None
                 judge_discard(acc, box, st, alt if to_alt else st.head, k, alt_cid if to_alt else cid, wd, desc, rpl, use_git)
                 return None
             if k in RESTORE:
@@ -1209,7 +1232,7 @@ def judge_discard(acc, box, st, target, k, want_cid, wd, desc, rpl, use_git):
     ok = head_tree_ok(acc, where, box, want_cid, desc, rpl)
     idx, _, problem = box.read_index()
     if problem:
-        judge(acc, box, target, where, desc, rpl, use_git=use_git)
+        judge(acc, box, target, where, desc, rpl, use_git=use_git, git_modes=("normal",), plan="lean")
         return
     if k in ("reset_mixed", "reset_mixed_alt"):
         # index == target tree exactly, work tree untouched
@@ -1224,7 +1247,7 @@ def judge_discard(acc, box, st, target, k, want_cid, wd, desc, rpl, use_git):
                               "%s: index entry %s is %r, target tree has %r" % (desc, _pn(p), idx.get(p), target.get(p)), rpl)
                 break
         acc.outcome("discard:%s:%s" % (k, "ok" if ok else "failed"))
-        judge(acc, box, target, where, desc, rpl, use_git=use_git)
+        judge(acc, box, target, where, desc, rpl, use_git=use_git, git_modes=("normal",), plan="lean")
         return
     if k == "reset_hard":
         concerned = sorted(set(target) | set(st.index))
@@ -1247,7 +1270,7 @@ def judge_discard(acc, box, st, target, k, want_cid, wd, desc, rpl, use_git):
             acc.violation("%s:worktree-wrong:%s" % (where, what), "%s: %s is %s, target tree says %s" % (desc, _pn(p), _short(e) if isinstance(e, tuple) or e is None else e, _short(w)), rpl)
             break
     acc.outcome("discard:%s:%s" % (k, "ok" if ok else "failed"))
-    judge(acc, box, target, where, desc, rpl, use_git=use_git)
+    judge(acc, box, target, where, desc, rpl, use_git=use_git, git_modes=("normal",), plan="lean")
 
 
 def case_edits(acc, sid, ops, use_git):
@@ -1269,7 +1292,7 @@ def work_level(task):
     out = []
     for sid, ops in nodes:
         st = model_state(sid, ops)
-        for op in menu(st, STARTS[sid][1], alt_tree(sid)[0]):
+        for op in menu(st, STARTS[sid][1], alt_tree(sid)[0], drop_path(sid)):
             r = run_edits(acc, sid, list(ops) + [op], use_git)
             if r is None:
                 continue
@@ -1372,6 +1395,100 @@ def universes(thorough):
     return us
 
 
+# --------------------------------------------------------------------------- (4) owned timestamps
+
+COMMIT_TIME = 1_000_000_000  # what refmodels/worktree.commit_body writes; WorkTree.unstage copies it into the entry as (sec, 0)
+STAMP_SEQS = ("unstage", "whole-second", "checkout")
+STAMP_EDITS = ("same", "grow")
+STAMP_CODES = ("ns5", "ns-max", "next", "prev", "ns0")
+
+
+def stamp_cases():
+    out = []
+    for trust in (False, True):
+        for seq in STAMP_SEQS:
+            for edit in STAMP_EDITS:
+                for code in STAMP_CODES:
+                    if code == "ns0" and seq != "checkout":
+                        continue  # same second, ns 0, same size as an entry stamped (sec, 0): stat-identical by construction (the racy-git ambiguity)
+                    out.append((seq, edit, code, trust))
+    return out
+
+
+def case_stamps(acc, seq, edit, code, trust_ctime):
+    """A tracked file is edited (same size / other size) and its mtime is *set* relative to the second R that an
+    index entry records for it; status must report exactly the paths whose bytes differ (content oracle, no git:
+    git without USE_NSEC compares whole seconds and legitimately misses the same-second cases).
+      unstage       edit, add, unstage: the entry is (commit time, 0) + HEAD's size; R = commit time
+      whole-second  the file is stamped (R, 0) and added, so the entry's nanoseconds are 0; then edited again
+      checkout      the entry as checkout wrote it (R = its seconds); the only sequence where (R, 0) is used
+    core.trustctime=false takes ctime (which cannot be set) out of the comparison."""
+    from dulwich import porcelain
+
+    box = Box(config_extra=b"" if trust_ctime else b"\ttrustctime = false\n")
+    desc = "stamps %s/%s/%s trustctime=%s" % (seq, edit, code, trust_ctime)
+    rpl = rp(case_stamps, seq, edit, code, trust_ctime)
+    acc.count("stamp_cases")
+    try:
+        tree, tid, cid = box.add_tree("A", ((b"a", "P"), (b"b", "X")))
+        do_checkout(box, "porcelain.checkout", "A")
+        r = box.repo()
+        full = box.full(b"a")
+
+        def rewrite(ns):
+            with open(full, "rb") as f:
+                data = f.read()
+            new = (bytes([data[0] ^ 1]) + data[1:]) if edit == "same" else (data[:-1] if data.endswith(b"!") else data + b"!")
+            with open(full, "wb") as f:
+                f.write(new)
+            os.utime(full, ns=(ns, ns))
+
+        def entry_mtime():
+            with open(os.path.join(box.gitdir, "index"), "rb") as f:
+                e = [x for x in indexfile.parse(f.read()).entries if x.name == b"a"][0]
+            return e.mtime
+
+        def stamp(rsec, rns):
+            if code == "ns5":
+                return rsec * 10**9 + 5
+            if code == "ns-max":
+                return rsec * 10**9 + 999_999_999
+            if code == "next":
+                return (rsec + 1) * 10**9
+            if code == "prev":
+                return (rsec - 1) * 10**9 + 999_999_999
+            return rsec * 10**9  # ns0
+
+        if seq == "unstage":
+            rewrite(stamp(COMMIT_TIME, 0))
+            porcelain.add(r, paths=["a"])
+            r.get_worktree().unstage(["a"])
+            if entry_mtime() != (COMMIT_TIME, 0):
+                acc.outcome("stamps:unstage-entry-not-(commit-time,0)")  # vacuity: the sequence no longer builds what it is meant to
+        elif seq == "whole-second":
+            rewrite((COMMIT_TIME + 50) * 10**9)
+            porcelain.add(r, paths=["a"])
+            if entry_mtime() != (COMMIT_TIME + 50, 0):
+                raise HarnessError("add did not record the whole-second mtime: %r" % (entry_mtime(),))
+            rewrite(stamp(COMMIT_TIME + 50, 0))
+        else:
+            rsec, rns = entry_mtime()
+            if code == "ns0" and rns == 0:
+                acc.outcome("stamps:skipped(entry-already-has-ns-0)")
+                return
+            rewrite(stamp(rsec, rns))
+        acc.outcome("stamps:%s" % seq)
+        sub = Acc()
+        judge(sub, box, tree, "stamps:%s" % seq, desc, rpl, use_git=False)
+        viol, sub.viol = sub.viol, {}
+        acc.merge(sub)
+        for key, (_, cases) in viol.items():  # the key says which stat history the status call got wrong
+            for c in cases:
+                acc.violation("stamps(%s,%s,trustctime=%s):%s" % (seq, "same-second" if code in ("ns5", "ns-max", "ns0") else "adjacent-second", str(trust_ctime).lower(), key), c["summary"], c["replay"])
+    finally:
+        box.close()
+
+
 def work(task):
     kind, items, use_git = task
     acc = Acc()
@@ -1380,6 +1497,8 @@ def work(task):
             case_roundtrip(acc, it[0], it[1], use_git)
         elif kind == "switch":
             case_switch(acc, it[0], it[1], it[2], use_git)
+        elif kind == "stamps":
+            case_stamps(acc, *it)
         else:
             raise AssertionError(kind)
     return acc
@@ -1415,6 +1534,7 @@ def run(ctx):
     first = set(us[0][1])
     sw = [(a, b, m) for a, b in pairs for m in SWITCHES if m == "porcelain.checkout" or (a in first and b in first) or (len(a) <= 1 and len(b) <= 1)]
     tasks += [("switch", part, True) for part in split(ctx.order(sw), J * 2)]
+    tasks += [("stamps", part, False) for part in split(ctx.order(stamp_cases()), 8)]
     tasks = ctx.order(tasks)
     for acc in pmap(work, tasks, jobs=ctx.jobs, ordered=True):
         ctx.acc.merge(acc)
@@ -1429,10 +1549,10 @@ def run(ctx):
     n = ctx.acc.n
     ctx.level = "model_checking"
     ctx.coverage.update(
-        evaluations=n.get("roundtrip_cases", 0) + n.get("switch_cases", 0) + n.get("transitions", 0),
+        evaluations=n.get("roundtrip_cases", 0) + n.get("switch_cases", 0) + n.get("transitions", 0) + n.get("stamp_cases", 0),
         states=stats["states"],
         transitions=n.get("transitions", 0),
-        traces_validated_against_impl=n.get("roundtrip_cases", 0) + n.get("switch_cases", 0) + n.get("transitions", 0),
+        traces_validated_against_impl=n.get("roundtrip_cases", 0) + n.get("switch_cases", 0) + n.get("transitions", 0) + n.get("stamp_cases", 0),
         distinct_nontrivial=len([c for c in ctx.acc.classes if not c.endswith(":ok") and c != "state:clean"]),
         exhaustive=True,
         bounds={
@@ -1449,9 +1569,12 @@ def run(ctx):
             "against the three-dict model, the model checked against C git status/write-tree in every judged end state. Also: every tree of 2-3 names that sort around '/' "
             "(%r) in (1); start states with a prelude (edit, stage, edit back; index rewritten by C git so that it holds a cache-tree extension, which must stay consistent with "
             "the entries after every dulwich write); porcelain.reset(hard, HEAD) and porcelain.checkout(B, force=True) from every state without file/directory clashes, as final steps "
-            "(index and files of the paths concerned must equal the target tree)."
+            "(index and files of the paths concerned must equal the target tree). Round 3: edit op symlink -> regular file holding the link text; porcelain.checkout(paths), reset_file, "
+            "restore as ordinary operations (work-tree entry must get kind, content and exec bit of the HEAD/index entry); reset --mixed HEAD / other commit and an unforced switch to a "
+            "branch lacking a hand-deleted file as final steps; a start with staged mode-only and type-only changes; (4) %d owned-timestamp cases (mtime set relative to the second an "
+            "index entry records, core.trustctime false/true, content oracle)."
             % (2 if q else 3, [_pn(x) for x in NAMES], KINDS1, " + all 3-entry trees over kinds %r" % Q3 if q else " (3-entry trees: the two entry points alternate)", list(CHECKOUTS),
-               [(name, len(u)) for name, u in us], list(SWITCHES), stats["depth_completed"], len(STARTS), [_pn(x) for x in COLLIDE])
+               [(name, len(u)) for name, u in us], list(SWITCHES), stats["depth_completed"], len(STARTS), [_pn(x) for x in COLLIDE], len(stamp_cases()))
         ),
         git_status_calls=n.get("git_status_calls", 0),
         git_write_tree_calls=n.get("git_write_tree_calls", 0),
@@ -1463,6 +1586,7 @@ def run(ctx):
         "inputs (blobs, trees, commits, refs, HEAD, config) are written by the harness, not by dulwich",
         "C git runs with GIT_OPTIONAL_LOCKS=0 and a copy of the index, after dulwich's observations, so it cannot perturb a state",
         "symlinked leading directories that resolve to same-named files are not enumerated (git and lstat disagree about them by design)",
+        "phase (4) does not consult C git: git built without USE_NSEC compares whole seconds; the stat-identical combination (same second, ns 0, same size) is not enumerated",
         "operations are only issued when C git would accept them (path exists or is tracked); any exception from a dulwich operation on such a state is a violation",
     ]
 
